@@ -52,7 +52,7 @@ def loop_contract():
                 "forall(lambda q: implies(at_interference(q in SM) and not (q in SM), "
                 "wcnt(at_interference(SM[q])) == at_interference(wcnt(SM[q])) + 1), 'key3')"),
               CANARY("C09/canary-nothing-ever-removed", "forall(lambda q: implies(at_interference(q in SM), q in SM), 'key3')")],
-        modifies=["message_buffer.set_messages[...]"] + GHOST_LOG + ["ghost.wcnt"])
+        modifies=["message_buffer.set_messages[...]"] + GHOST_LOG + ["ghost.wcnt"], calls="send")
 
 
 def flush_contract():
